@@ -104,6 +104,6 @@ def generators(tier, seed):
 
 MANIFEST = dict(
     design_ref="DESIGN.md §5 C15",
-    text="TLC enumerates arithmetic expression trees (Polish notation), confusable column pairs, WHERE-on-expression queries and multi-column lists; each is run on world W15 and Judge_C15 recomputes every cell with Arith.tla (structural recursion; precedence and associativity live in the renderer ArithText, so a parser that groups differently yields different values).",
+    text="TLC enumerates arithmetic expression trees (Polish notation), confusable column pairs, WHERE-on-expression queries and multi-column lists; each is run on world W15 and Judge_C15 recomputes every cell with Arith.tla (structural recursion; precedence and associativity live in the renderer ArithText, so a parser that groups differently yields different values). The Mech models Parser!ParseFields + ExprEval (get_column_expr_value with its per-row cache) are checked against Arith by MC_ExprEvalMech and bound to the binary by Judge_ExprEval (DRIFT).",
     note="Trusted: TLC, Arith/Eval, lstat values. Only exact divisions and non-negative modulo are judged; trees with at most two binary operators (plus unary minus).",
     technique="TLC expression enumeration + replay + TLA+ judge")
